@@ -1,5 +1,6 @@
 """C09 - no state is revealed to the peer before its monitor update is durable (structural part)."""
 from engine import *
+import re
 import provenance
 
 CH = 'lightning::ln::channel::'
@@ -620,6 +621,26 @@ def r09m(F):
 		out.append(r)
 	return out
 
+def r09n(F):
+	"""after a channel is closed its further monitor updates are numbered from closed_channel_monitor_update_ids: the entry made when a
+	funded channel closes is the id of the last update the channel GENERATED (ChannelForceClosed included, held updates included) - seeded
+	with the last *released* id, the next post-close update re-uses an id the Watch has already seen"""
+	out = []
+	n = 0
+	for name in F.family('lightning::ln::channelmanager::ChannelManager::locked_handle_funded_close_internal'):
+		fu = F.func(name)
+		ex = Expr(fu)
+		for b, ci in fu.calls():
+			f = norm(ci.get('f') or '')
+			if (f.endswith('::insert') or f.endswith('or_insert')) and ci['args'] and 'closed_channel_monitor_update_ids' in expr_str(ex.of_operand(ci['args'][0])):
+				n += 1
+				v = expr_str(ex.of_operand(ci['args'][-1]))
+				ok = bool(re.search(r'(^|[^a-z_])get_latest_monitor_update_id\(', v)) and 'unblocked' not in v
+				out.append(Result('09.n', ok, ('ok:' if ok else 'id:') + 'closed-channel-id-seed', 'locked_handle_funded_close_internal records %s as the closed channel\'s last update id (expected get_latest_monitor_update_id: the last id generated, not the last one released)' % v[:90], 1, where=None if ok else F.where(name, fu.line_of(b))))
+	if n == 0:
+		out.append(Result('09.n', False, 'anchor:closed-channel-id-seed', 'locked_handle_funded_close_internal no longer inserts into closed_channel_monitor_update_ids'))
+	return out
+
 RULES = [
 	('09.m', 'restart: every in-flight update missing from the monitor is replayed; all-completed means all', r09m),
 	('09.a', 'monitor update ids advance by +1 at frozen sites; blocked updates form a FIFO', r09a),
@@ -635,4 +656,5 @@ RULES = [
 	('09.l', 'a withheld channel_ready is recorded as pending; completion actions are released only when all in-flight updates completed', r09l),
 	('09.j', 'held state accumulates across pauses; renumbering uses the first blocked id; an InProgress initial persist is tracked', r09j),
 	('09.p', 'same-name field transfer: structs carrying this property\'s quantities are filled from the same-named field or a reviewed alias (rules/provenance.py)', lambda F: provenance.for_property(F, 'C09', '09.p')),
+	('09.n', 'post-close update ids continue from the last id the channel generated', r09n),
 ]
